@@ -34,6 +34,7 @@ WEIGHTS = {
     'repack': 1,
     'aux_add': 2,
     'import': 2,
+    'addpack_off': 1,
 }
 
 
